@@ -623,7 +623,20 @@ func (c *SuperCfg) writeEvidence(a *agg, def *PropDef, runWall, wall float64, nv
 		"exhaustive": false,
 	}
 	if len(a.sites) > 0 {
-		cov["yield_sites_covered"] = len(a.sites)
+		nh, ny := 0, 0
+		var holds []string
+		for k := range a.sites {
+			if strings.HasPrefix(k, "hold@") {
+				nh++
+				holds = append(holds, strings.TrimPrefix(k, "hold@"))
+			} else {
+				ny++
+			}
+		}
+		sort.Strings(holds)
+		cov["yield_sites_covered"] = ny
+		cov["hold_windows_covered"] = nh
+		cov["hold_window_sites"] = holds
 	}
 	ev := map[string]any{
 		"property_id": c.Prop,
